@@ -17,7 +17,10 @@ import (
 	"time"
 
 	yae "github.com/goghcrow/yae"
+	"github.com/goghcrow/yae/compiler"
 	"github.com/goghcrow/yae/conv"
+	"github.com/goghcrow/yae/fun"
+	"github.com/goghcrow/yae/parser/ast"
 	"github.com/goghcrow/yae/simrt"
 	"github.com/goghcrow/yae/types"
 	"github.com/goghcrow/yae/val"
@@ -418,6 +421,11 @@ func (x *evalCtx) pristine(k pkey) obs {
 			valObs(o, v, err)
 			o.Debug = dbg
 		})
+	case "split":
+		return x.observe(false, func(o *obs) {
+			e := buildEngine(k.spec, x.recFn)
+			splitRun(o, e, k.spec, nil, k.src, k.cenv)
+		})
 	case "eval":
 		return x.observe(false, func(o *obs) {
 			v, err := yae.Eval(k.src, envMakers[k.cenv]())
@@ -448,6 +456,8 @@ func (h *Hist13) keys() []pkey {
 				continue
 			}
 			ks = append(ks, pkey{"invoke", h.Engines[c.Eng], c.Prog.Src, c.Prog.Env, op.Env})
+		case "split":
+			ks = append(ks, pkey{"split", h.Engines[op.Eng], op.Prog.Src, op.Prog.Env, ""})
 		case "eval", "debug":
 			ks = append(ks, pkey{op.K, EngineSpec{}, op.Prog.Src, op.Prog.Env, ""})
 		default:
@@ -513,6 +523,7 @@ func runHist13(h *Hist13, x *evalCtx) hist13Result {
 		reused := map[string]interface{}{}
 		rawT := map[string]*types.Env{}
 		rawV := map[string]*val.Env{}
+		parsedTrees := map[string]ast.Expr{} // (engine, source) -> tree kept by the host, see "split"
 		rawHas := map[string]string{}
 		rawTHas := map[string]string{}
 		rawTGen := map[string]int{}
@@ -622,6 +633,9 @@ func runHist13(h *Hist13, x *evalCtx) hist13Result {
 					if err != nil {
 						return envMakers[name](), "", nil
 					}
+					// a hand-built environment: its lists have been grown by appending (ListVal.Add),
+					// so their backing arrays have room beyond their length
+					e.ForEach(func(_ string, v *val.Val) { spareLists(v, 0) })
 					rawV[class] = e
 					rawHas[class] = name
 				} else {
@@ -738,6 +752,22 @@ func runHist13(h *Hist13, x *evalCtx) hist13Result {
 				if host != nil && deepSnapshot(host) != snap {
 					hostChanged[i] = "host value modified by Eval"
 				}
+			case "split":
+				// the two-step API: the engine parses a source text ONCE (Expr.Parse) and the
+				// host keeps the tree; every operation compiles that same tree again
+				// (Expr.CompileExpr) against the type environment of its own typing
+				key := fmt.Sprint(op.Eng) + "|" + op.Prog.Src
+				got[i] = x.observe(false, func(o *obs) {
+					splitRun(o, engines[op.Eng], h.Engines[op.Eng], func(parse func() ast.Expr) ast.Expr {
+						if t, ok := parsedTrees[key]; ok {
+							res.Reused++
+							return t
+						}
+						t := parse()
+						parsedTrees[key] = t
+						return t
+					}, op.Prog.Src, op.Prog.Env)
+				})
 			case "debug":
 				env := envMakers[op.Prog.Env]()
 				got[i] = x.observe(op.StdoutFail, func(o *obs) {
@@ -1012,6 +1042,20 @@ func genHist13(r *rng) *Hist13 {
 			h.Ops = append(h.Ops, H13Op{K: "debug", Prog: &p})
 		default:
 			h.Ops = append(h.Ops, H13Op{K: "interfere", N: 1 + r.intn(4)})
+		}
+	}
+	if r.chance(0.3) {
+		// the two-step API on a kept tree: one generic source, parsed once per engine, compiled
+		// several times under different typings
+		e := r.intn(ne)
+		p := Prog{Src: genericSrcs[r.intn(len(genericSrcs))], Generic: true}
+		for j := 0; j < 2+r.intn(4); j++ {
+			q := p
+			q.Env = genericEnvs[r.intn(len(genericEnvs))]
+			if r.chance(0.2) {
+				e = r.intn(ne)
+			}
+			h.Ops = append(h.Ops, H13Op{K: "split", Eng: e, Prog: &q})
 		}
 	}
 	if ne >= 2 && r.chance(0.3) {
@@ -1547,6 +1591,89 @@ func freshProcessCheck(keys []pkey, t1 map[pkey]obs) *Violation {
 		}
 	}
 	return nil
+}
+
+// builtinRT: a run-time function table like the one every engine builds for itself
+var builtinRT = func() *val.Env {
+	rt := val.NewEnv()
+	for _, f := range fun.BuiltIn() {
+		rt.RegisterFun(f)
+	}
+	return rt
+}()
+
+// splitRun: Parse (or the kept tree) + CompileExpr + one evaluation of the compiled closure on an
+// environment of the compile-time typing. Engines with user functions are compiled only (their
+// run-time function table is private to the engine).
+func splitRun(o *obs, e *yae.Expr, spec EngineSpec, keep func(func() ast.Expr) ast.Expr, src, envName string) {
+	o.Class = "cerr"
+	var cl compiler.Closure
+	func() {
+		defer func() {
+			if r := recover(); r != nil && simrt.IsAbort(r) {
+				panic(r)
+			}
+		}()
+		te, err := conv.TypeEnvOf(envMakers[envName]())
+		if err != nil {
+			return
+		}
+		parse := func() ast.Expr { return e.Parse(src) }
+		var tree ast.Expr
+		if keep != nil {
+			tree = keep(parse)
+		} else {
+			tree = parse()
+		}
+		cl = e.CompileExpr(tree, te)
+	}()
+	if cl == nil {
+		return
+	}
+	o.Class = "ok"
+	if spec.UserFuns || spec.Backend == "dbg" {
+		return
+	}
+	ve, err := conv.ValEnvOf(envMakers[envName]())
+	if err != nil {
+		return
+	}
+	func() {
+		defer func() {
+			if r := recover(); r != nil {
+				if simrt.IsAbort(r) {
+					panic(r)
+				}
+				o.Class = "rerr"
+			}
+		}()
+		v := cl(ve.Inherit(builtinRT))
+		valObs(o, v, nil)
+		o.held = nil
+	}()
+}
+
+// spareLists rebuilds every list inside v with spare capacity behind its elements.
+func spareLists(v *val.Val, d int) {
+	if v == nil || d > 6 {
+		return
+	}
+	switch v.Type.Kind {
+	case types.KList:
+		l := v.List()
+		l.V = append(make([]*val.Val, 0, len(l.V)+3), l.V...)
+		for _, el := range l.V {
+			spareLists(el, d+1)
+		}
+	case types.KObj:
+		for _, f := range v.Obj().V {
+			spareLists(f, d+1)
+		}
+	case types.KMap:
+		for _, mv := range v.Map().V {
+			spareLists(mv, d+1)
+		}
+	}
 }
 
 var timeIdent = regexp.MustCompile(`(^|[^a-zA-Z0-9_."])t($|[^a-zA-Z0-9_(":])`)
